@@ -424,10 +424,13 @@ class POP3CommandHandler:
         msg_bytes = msg_as_bytes(msg)
         size = len(msg_bytes)
         msg_bytes = dot_stuff(msg_bytes)
+        # The rendered message already ends with CRLF; the multi-line response
+        # is terminated by a line holding only "." (RFC 1939 section 3), so
+        # do not send an extra empty line that `size` did not announce.
+        #
+        terminator = b".\r\n" if msg_bytes.endswith(b"\r\n") else b"\r\n.\r\n"
         await self.client.push(
-            f"+OK {size} octets\r\n".encode("latin-1")
-            + msg_bytes
-            + b"\r\n.\r\n"
+            f"+OK {size} octets\r\n".encode("latin-1") + msg_bytes + terminator
         )
         return True
 
@@ -541,7 +544,8 @@ class POP3CommandHandler:
         truncated_body = b"\r\n".join(body_lines[:num_lines])
         result = headers + b"\r\n" + truncated_body
         result = dot_stuff(result)
-        await self.client.push(b"+OK\r\n" + result + b"\r\n.\r\n")
+        terminator = b".\r\n" if result.endswith(b"\r\n") else b"\r\n.\r\n"
+        await self.client.push(b"+OK\r\n" + result + terminator)
         return True
 
     ##################################################################
